@@ -1,6 +1,8 @@
 import WhVerif.Util.Proto
 import WhVerif.Model.C12
 import WhVerif.Model.C12Run
+import WhVerif.Model.C12File
+import WhVerif.Model.C04Json
 namespace WhVerif.Driver.C12
 open Lean WhVerif.Proto WhVerif.C12
 
@@ -128,6 +130,47 @@ def handleRun (op : String) (j : Json) : Option Json :=
   else none
 
 
+/-! ## `c12.file`: `run_stats` on a multi-sample file through the whole-file reader -/
+
+def fileErrJson : WhVerif.C12File.FileErr → Json
+  | .noSample => Json.str "no-sample"
+  | .sampleNotFound => Json.str "sample-not-found"
+  | .reader .mixed => Json.str "MixedPhasingError"
+  | .reader .ploidy => Json.str "PloidyError"
+  | .reader .notSorted => Json.str "VcfNotSortedError"
+  | .reader .hpFormat => Json.str "hpFormat"
+  | .run e => runErrJson e
+
+def parseFGroup (j : Json) : Option (String × List WhVerif.C04.Record) := do
+  pure (← getStr? j "chrom", ← (← getList? j "records").mapM WhVerif.C04.Json.record?)
+
+def parseFileIn (j : Json) : Option WhVerif.C12File.FileIn := do
+  let sample ← match j.getObjVal? "sample" with
+    | .ok Json.null => some none
+    | .ok (Json.str s) => some (some s)
+    | _ => none
+  pure { flags := { fixMissing := ← getBool? j "fixMissing", fixPs := ← getBool? j "fixPs" },
+         dedupGiven := ← getBool? j "dedupGiven", onlySnvs := ← getBool? j "onlySnvs", wantBl := ← getBool? j "blockList",
+         indexed := ← getBool? j "indexed", contigs := ← (← getList? j "contigs").mapM asStr?,
+         lens := ← (← getList? j "lens").mapM parseLen, given := ← (← getList? j "given").mapM asStr?,
+         samples := ← (← getList? j "samples").mapM asStr?, sample := sample,
+         groups := ← (← getList? j "groups").mapM parseFGroup }
+
+/-- `c12.file {…FileIn}` → as `c12.run`, or `{err}` with the error exit / exception class -/
+def handleFile (op : String) (j : Json) : Option Json :=
+  if op == "c12.file" then
+    let r : Option Json := do
+      let i ← parseFileIn j
+      match WhVerif.C12File.fileRun i with
+      | .error e => pure (Json.mkObj [("err", fileErrJson e)])
+      | .ok o =>
+        let allJ := match o.all with
+          | some s => rowJson (detailed s) (allN50 i.lens o.parts)
+          | none => Json.null
+        pure (Json.mkObj [("chroms", ofList (partJson i.flags i.lens) o.parts), ("seen", strsJson o.seen), ("all", allJ)])
+    some (r.getD badInput)
+  else none
+
 /-- `c12.stats {fixMissing, fixPs, onlySnvs, blockList, chroms: [{length, recs}]}` (only the chromosomes that are processed,
 in file order) → `{chroms: [{row, blockList, gtf}], all: row}` or `{err}` -/
 def handle (op : String) (j : Json) : Option Json :=
@@ -144,5 +187,6 @@ def handle (op : String) (j : Json) : Option Json :=
         | .ok (s, t, cj) :: rest => go (addStats acc s) (target + t) (cj :: js) rest
       pure (go {} 0 [] outs)
     some (r.getD badInput)
+  else if op == "c12.file" then handleFile op j
   else handleRun op j
 end WhVerif.Driver.C12
